@@ -2193,14 +2193,17 @@ def check_C12(res):
     env = dict(fc.fenv()); env['VERIF_WATCHDOG_S'] = '300'
     BUF = 0x20000
     QCAP = 10
-    configs = [(60000, 4096, 0, 0), (200, 4096, 0, 0), (3000, 16384, 1, 0), (200, 4096, 50, 2000), (60000, 4096, 3, 3000)]
+    configs = [(60000, 4096, 0, 0), (200, 4096, 0, 0), (3000, 16384, 1, 0), (200, 4096, 50, 2000), (60000, 4096, 3, 3000),
+               # containers larger than the stream buffer (128 KiB), consumer that stalls
+               (3000, 262144, 20, 2000, (3, 12, 36)), (40000, 524288, 4, 2000, (3, 10, 24))]
     if res.tier == 'thorough':
-        configs += [(300000, 65536, 0, 0), (1000, 1048576, 0, 0), (60000, 4096, 0, 0), (200, 4096, 0, 0)]
+        configs += [(300000, 65536, 0, 0), (1000, 1048576, 0, 0, (4, 16, 64)), (60000, 4096, 0, 0), (200, 4096, 0, 0), (3000, 262144, 0, 0, (4, 16, 64, 128))]
     reqs = []
     meta = []
-    for (payload, cs, stall_every, stall_us) in configs:
+    for cfg in configs:
+        (payload, cs, stall_every, stall_us) = cfg[:4]
         per_obj = payload + 48
-        for ncont in ((4, 32, 256) if res.tier == 'quick' else (4, 16, 64, 256, 1024)):
+        for ncont in (cfg[4] if len(cfg) > 4 else (4, 32, 256) if res.tier == 'quick' else (4, 16, 64, 256, 1024)):
             n = max(1, (ncont * cs) // per_obj)
             for rep in range(2):
                 reqs.append('heap %d %d %d %d %d %d' % (n, payload, cs, 0 if payload > 1000 else 1, stall_every, stall_us))
@@ -2320,7 +2323,7 @@ def check_C13(res):
 
 
 C13_THEOREMS = ['Blf.Props.C13_after_destroy', 'Blf.Props.C13_flags_read_obj', 'Blf.Props.C13_flags_read_null']
-C12_THEOREMS = []
+C12_THEOREMS = ['Blf.Props.C12_read_session_bounded', 'Blf.Props.C12_write_session_bounded', 'Blf.Props.C12_drop_leaves_one_container']
 
 
 def struct_pack(fmt, v):
